@@ -186,3 +186,25 @@ package types
 //@ func (voteSet *VoteSet) HasTwoThirdsMajority() (r bool)
 //@   for C02
 //@   ensures r <==> (voteSet != nil && voteSet.maj23 != nil)
+
+// ---------------------------------------------------------------- C13: part sets
+
+//@ spec func wfPS(ps *PartSet) bool = ps != nil && len(ps.parts) == ps.total && (ps.partsBitArray != nil ==> common.wfBits(ps.partsBitArray)) && ps.count < 4294967295
+
+//@ func (ps *PartSet) AddPart(part *Part) (added bool, err error)
+//@   for C13 C18
+//@   requires part != nil
+//@   requires ps != nil ==> wfPS(ps)
+//@   modifies ps.parts[_], ps.count, ps.partsBitArray.Elems[_]
+//@   ensures ps == nil ==> !added && err == nil
+//@   ensures [slotWasEmpty] added ==> err == nil && part.Index < ps.total && old(ps.parts[part.Index]) == nil && ps.parts[part.Index] == part && ps.count == old(ps.count) + 1
+//@   ensures [bindIndex] added ==> part.Proof.Index == part.Index && part.Proof.Total == ps.total
+//@   ensures [bindLeaf] added ==> content(part.Proof.LeafHash) == merkle.leafH(content(part.Bytes))
+//@   ensures [bindRoot] added ==> merkle.compOK(part.Index, ps.total, part.Proof.Aunts[:0], len(part.Proof.Aunts)) && merkle.compVal(part.Index, ps.total, merkle.leafH(content(part.Bytes)), part.Proof.Aunts[:0], len(part.Proof.Aunts)) == content(ps.hash)
+//@   ensures [rejectedUntouched] !added && ps != nil ==> ps.count == old(ps.count) && (forall j int :: 0 <= j && j < len(ps.parts) ==> ps.parts[j] == old(ps.parts[j]))
+//@   ensures [othersUntouched] added ==> forall j int :: 0 <= j && j < len(ps.parts) && j != part.Index ==> ps.parts[j] == old(ps.parts[j])
+
+//@ func (ps *PartSet) IsComplete() (r bool)
+//@   for C13
+//@   requires ps != nil
+//@   ensures r <==> ps.count == ps.total
